@@ -933,6 +933,11 @@ def check(repo):
     okb, whyb = bitset_width_checked(bi)
     r10.require(okb, bi, "Bitset width check", "Bitset.__init__ no longer refuses a value wider than the explicit length (%s): a keyword longer than param_l is cut down to its last "
                 "param_l bytes, so a search for an absent over-long keyword returns the postings of the stored keyword it ends with" % whyb)
+    from .c08 import bitset_input_cut
+    cutb = bitset_input_cut(bi)
+    r10.require(cutb is None, bi, "Bitset width check sees the whole input",
+                "Bitset.__init__ cuts its input down (%s) before checking that it fits the explicit length: a keyword longer than param_l is reduced to its last "
+                "param_l bytes, so a search for an absent over-long keyword returns the postings of the stored keyword it ends with" % (short(cutb) if cutb is not None else ""), cutb)
     # ------------------------------------------------------------------ R2.9 what a search collects may be nothing
     r9 = Rule("R2.9", "a local list that stays empty when nothing is found is not indexed unguarded")
     rules.append(r9)
